@@ -277,7 +277,7 @@ class UdpProxy(Handler):
             data, peer = sock.recvfrom(4096)
         except socket.error:
             _, e = sys.exc_info()[:2]
-            log('UDP recv from %r port %d: %s' % (peer[0], peer[1], e))
+            log('UDP recv on channel %d: %s' % (self.chan, e))
             return
         debug2('UDP response: %d bytes' % len(data))
         hdr = b("%s,%r," % (peer[0], peer[1]))
